@@ -3,7 +3,7 @@ import math
 from fractions import Fraction as F
 
 from harness import nswire
-from harness.common import rat, corpus_cases
+from harness.common import rat, unrat, corpus_cases
 
 PID = 'C01'
 MODULES = ['NoteSeqVerif.Props.C01', 'NoteSeqVerif.Props.C01_float']
@@ -16,11 +16,11 @@ THEOREMS = [(_P, t) for t in [
     'NSV.C01.quantize_min_len', 'NSV.C01.quantize_total_covers', 'NSV.C01.quantize_nonneg',
     'NSV.C01.quantizeNotes_negative_iff', 'NSV.C01.quantizeNotes_frame', 'NSV.C01.quantizeAbs_frame',
     'NSV.C01.quantizeRel_rejects_time_signature_change', 'NSV.C01.quantizeRel_bad_time_signature',
-    'NSV.C01.isPow2_iff', 'NSV.C01.quantizeRel_rejects_tempo_change', 'NSV.C01.quantizeRel_accepts',
+    'NSV.C01.isPow2_iff', 'NSV.C01.isPow2_two_pow', 'NSV.C01.quantizeRel_rejects_tempo_change', 'NSV.C01.quantizeRel_accepts',
     'NSV.C01.quantizeRel_frame', 'NSV.C01.checkTimeSigs_perm', 'NSV.C01.checkTempos_perm',
     'NSV.C01.qNotes_spec', 'NSV.C01.quantizeNotes_spec', 'NSV.C01.checkTimeSigs_spec', 'NSV.C01.checkTempos_spec',
 ]] + [(_F, t) for t in [
-    'NSV.C01.qstep_float_nearest', 'NSV.C01.qstep_float_within_one', 'NSV.C01.qstep_float_mono',
+    'NSV.C01.qstep_float_nearest', 'NSV.C01.qstep_float_tie_up', 'NSV.C01.qstep_float_within_one', 'NSV.C01.qstep_float_mono',
     'NSV.C01.quantize_min_len_float', 'NSV.C01.sps_float_nonneg',
     'NSV.rounding_rne53', 'NSV.qstep_float', 'NSV.qstep_near',
 ]]
@@ -49,10 +49,31 @@ def near_value(rng, x):
     return (y, 'rel') if y != x else (nswire.nextafter_n(x, 1), 'ulps')
 
 
+def exact_tie_time(rng, sps):
+    """a double t whose REAL product with the double sps is exactly k + 1/2 (and small enough that the float product is
+    exact too): the statement's "exact half-step ties round up" applies to it with no float tolerance.  With
+    sps = o * 2^e (o odd) these are t = (2i+1) * 2^(-e-1), t*sps = (2i+1)*o/2.  None when o is too large."""
+    p = F(sps)
+    if p <= 0:
+        return None
+    num, den = p.numerator, p.denominator
+    a = (num & -num).bit_length() - 1
+    o = num >> a
+    if o >= 2 ** 24:
+        return None
+    i = rng.choice([0, 0, 1, 2, rng.randrange(0, 400), rng.randrange(0, 10 ** 6)])
+    t = float(F((2 * i + 1) * den, 2 ** (a + 1)))
+    return t if F(t) * p == F((2 * i + 1) * o, 2) and t * float(sps) == (2 * i + 1) * o / 2 else None
+
+
 def gen_time(rng, sps):
     """times from sub-streams: arbitrary, on-grid, half-step boundary +-ulps (small and large step numbers, k/sps and the
     decimal literal), near zero, negative (incl. the -1/2, -3/2, -2 step boundaries +-ulps)."""
     k = rng.random()
+    if k < 0.07:
+        t = exact_tie_time(rng, sps)
+        if t is not None:
+            return t, 'half-step:exact-tie'
     if k < 0.25:
         return rng.uniform(0, 20), 'arbitrary'
     if k < 0.42:
@@ -112,8 +133,11 @@ def gen_tempos(rng, qpm, focus, hist):
 
 
 SIGS = [(4, 4), (4, 4), (3, 4), (6, 8), (0, 4), (4, 3), (4, 0), (5, 16), (4, -4)]
-DENS = [1, 2, 4, 8, 16, 32, 64, 128, 1024, 2**30, 3, 5, 6, 7, 9, 12, 15, 17, 24, 31, 33, 48, 96, 127, 129, 255, 257,
-        2**30 - 1, 2**30 + 1, 2**31 - 1, 0, -1, -2, -4, -8, -2**31]
+# every legal denominator of the int32 field: 2^0 .. 2^30 (all 31, not a sample), their +-1 neighbours, sums of two
+# powers, zero and negatives
+POW2 = [2 ** i for i in range(31)]
+DENS = POW2 + POW2 + [2 ** i + d for i in range(2, 31) for d in (-1, 1)] + [2 ** 29 + 2 ** 28, 2 ** 30 + 2 ** 29, 2 ** 31 - 1] + \
+    [3, 5, 6, 7, 9, 12, 15, 17, 24, 31, 33, 48, 96, 127, 129, 255, 257, 0, -1, -2, -4, -8, -2 ** 29, -2 ** 30, -2 ** 31]
 
 
 def gen_tsigs(rng, focus, hist):
@@ -158,13 +182,16 @@ def gen_case(rng):
     mode = rng.choice(['rel', 'rel', 'abs'])
     hist = set()
     if mode == 'abs':
-        res = rng.choice([1, 2, 10, 31, 100, 250, 1000, rng.randrange(1, 1001)])
+        res = rng.choice([1, 2, 10, 31, 100, 250, 1000, 75, 93, 99] + [rng.randrange(1, 1001)] * 10)
         sps = float(res)
     else:
         res = rng.choice([1, 2, 3, 4, 4, 6, 8, 12, 24, 96, rng.randrange(1, 97)])
         qpm = rng.choice([120.0, 60.0, 90.5, 10.0, 480.0, rng.uniform(10, 480), rng.uniform(10, 480),
                           # decimal tempos and tempos as a MIDI file gives them (60e6 / microseconds per quarter)
-                          100.1, 133.33, 200 / 3, 87.3, 60e6 / rng.randrange(125000, 6000000), round(rng.uniform(10, 480), 2)])
+                          100.1, 133.33, 200 / 3, 87.3, 60e6 / rng.randrange(125000, 6000000), round(rng.uniform(10, 480), 2),
+                          # multiples of 15: res * qpm / 60 is a dyadic number of steps per second with a small odd part
+                          # (33 spq at 180 qpm = 99 steps per second), so exact half-step ties exist
+                          15.0 * rng.randrange(1, 33), 15.0 * rng.randrange(1, 33), 180.0])
         sps = res * qpm / 60.0
         # near-coincidences for the rejection clause: on the tempos (time signatures harmless, so that the tempo decisions
         # are reached), on the time signatures, or on both
@@ -230,13 +257,40 @@ def oracle_case(sl, mode, res, ns):
     """the property statement, evaluated on the implementation's output in exact arithmetic.
     returns a description of what fails, or None."""
     before = ns.SerializeToString(deterministic=True)
+    f = sl.quantize_note_sequence if mode == 'rel' else sl.quantize_note_sequence_absolute
     try:
-        out = sl.quantize_note_sequence(ns, res) if mode == 'rel' else sl.quantize_note_sequence_absolute(ns, res)
-        err = None
+        out, err = f(ns, res), None
     except Exception as e:  # pylint: disable=broad-except
         out, err = None, e
     if ns.SerializeToString(deterministic=True) != before:
-        return 'input modified'
+        return 'input modified' + (' (by a call that raised %s)' % type(err).__name__ if err is not None else '')
+    # a short history: the result is a new object; spoiling it in place and calling again with the same arguments gives
+    # the same answer (no state kept between calls, nothing of the input shared with an earlier result)
+    if out is ns:
+        return 'the result is the argument object itself, not a copy'
+    first = out.SerializeToString(deterministic=True) if out is not None else None
+    if out is not None:
+        spoiled = type(ns)()
+        spoiled.CopyFrom(out)
+        for n in out.notes:
+            n.quantized_start_step, n.quantized_end_step, n.pitch = 12345, 12346, 1
+        del out.tempos[:]
+        del out.time_signatures[:]
+        out.total_quantized_steps = 999
+        if ns.SerializeToString(deterministic=True) != before:
+            return 'modifying the result in place changed the input (shared sub-messages)'
+    try:
+        out2, err2 = f(ns, res), None
+    except Exception as e:  # pylint: disable=broad-except
+        out2, err2 = None, e
+    if ns.SerializeToString(deterministic=True) != before:
+        return 'input modified by the second call'
+    if type(err2) is not type(err) or (out2 is not None and out2.SerializeToString(deterministic=True) != first):
+        return 'second call with the same arguments gives a different answer (%s, then %s)' % (
+            type(err).__name__ if err else 'a result', type(err2).__name__ if err2 else 'a different result' if out else 'a result')
+    if out2 is not None and (out2 is out or out2 is ns):
+        return 'second call returned an object it returned or received before'
+    out = out2
     ok_errs = (sl.MultipleTempoError, sl.MultipleTimeSignatureError, sl.BadTimeSignatureError, sl.NegativeTimeError)
     if err is not None and not isinstance(err, ok_errs):
         return 'undocumented exception %s' % type(err).__name__
@@ -274,10 +328,12 @@ def oracle_case(sl, mode, res, ns):
         want = nearest_ties_up(x)
         if step == want:
             return None
-        # the float product t*sps may differ from the real product by an ulp: allow the neighbour only
-        # when the real product is within 2^-40 (relative) of a half-step boundary
+        # the float product t*sps may differ from the real product by an ulp: allow the neighbour only when the real
+        # product is inside the window around a half-step boundary outside which the doubles computation is PROVED to
+        # return the real answer (qstep_float_nearest: |x - (n + 1/2)| <= (x + 1) / 2^51 for 0 <= x < 2^52); before zero
+        # (no theorem) the old 2^-40 window stays
         frac = x + F(1, 2) - math.floor(x + F(1, 2))
-        near = min(frac, 1 - frac) <= (abs(x) + 1) * F(1, 2**40)
+        near = min(frac, 1 - frac) <= (abs(x) + 1) * (F(1, 2**51) if 0 <= x < 2**52 else F(1, 2**40))
         # ... but not on an exact half-step tie that the code sees exactly (float product exact, x = k + 1/2: then
         # x + 0.5 is exact too and the statement's "ties round up" applies with no tolerance).  One ulp beside the
         # boundary the code's own addition x + 0.5 rounds, which the tolerance above covers (C01 float theorems).
@@ -341,6 +397,87 @@ def oracle_case(sl, mode, res, ns):
     return None
 
 
+def oracle_step(sl, t, sps):
+    """quantize_to_step(t, sps) against the statement ("the step nearest its time, exact half-step ties round up"),
+    exactly: the float window of `check` above, none at all on a tie the doubles hit exactly."""
+    x = F(t) * F(sps)
+    try:
+        a, b = sl.quantize_to_step(t, sps), sl.quantize_to_step(t, sps)
+    except Exception as e:  # pylint: disable=broad-except
+        return 'quantize_to_step(%r, %r) raised %s' % (t, sps, type(e).__name__)
+    if a != b or not isinstance(a, int):
+        return 'quantize_to_step(%r, %r) = %r, then %r' % (t, sps, a, b)
+    want = nearest_ties_up(x)
+    if a == want:
+        return None
+    if x < 0:
+        # int() truncates toward zero; before zero the statement only asks for the rejection two steps out
+        return None if (a == 0 and x > F(-3, 2)) or abs(a - want) <= 1 else 'quantize_to_step(%r, %r) = %d, nearest step is %d' % (t, sps, a, want)
+    frac = x + F(1, 2) - math.floor(x + F(1, 2))
+    near = min(frac, 1 - frac) <= (abs(x) + 1) * F(1, 2**51) and x < 2**52
+    exact_tie = x.denominator == 2 and F(t * float(sps)) == x and x < 2**50
+    if near and abs(a - want) == 1 and not exact_tie:
+        return None
+    return 'quantize_to_step(%r, %r) = %d, nearest step is %d (t*sps = %s%s)' % (
+        t, sps, a, want, x if x.denominator <= 1024 else float(x), ', an exact half-step tie' if exact_tie else '')
+
+
+def extreme_cases():
+    """first and last legal value of every parameter and field, always run (not sampled): every denominator 2^0..2^30
+    and the values beside them, numerators 1 / 2^31-1, steps_per_quarter 1 / 96, tempo 10 / 480, steps_per_second 1 / 1000,
+    pitch 0 / 127, velocity 1 / 127, zero-length notes (at 0 too), empty sequences, exact half-step ties at the
+    steps-per-second values whose reciprocal is not a double."""
+    from note_seq.protobuf import music_pb2
+    out = []
+
+    def seq(times=((0.25, 0.75), (1.0, 2.0)), qpm=120.0, sig=None, pv=((60, 80), (64, 80))):
+        ns = music_pb2.NoteSequence()
+        ns.ticks_per_quarter = 220
+        if qpm is not None:
+            ns.tempos.add(qpm=qpm, time=0)
+        if sig is not None:
+            ns.time_signatures.add(numerator=sig[0], denominator=sig[1], time=0)
+        for i, (a, b) in enumerate(times):
+            p, v = pv[i % len(pv)]
+            ns.notes.add(pitch=p, velocity=v, start_time=a, end_time=b)
+        if times:
+            ns.control_changes.add(time=times[0][0], control_number=64, control_value=127)
+            ns.text_annotations.add(time=times[-1][0], text='C', annotation_type=music_pb2.NoteSequence.TextAnnotation.CHORD_SYMBOL)
+        ns.total_time = max([b for _, b in times] + [0.0])
+        return ns
+    for i in range(31):
+        for num in ((1, 4) if i % 2 else (3, 2 ** 31 - 1)):
+            out.append(('rel', 4, seq(sig=(num, 2 ** i)), {'extreme:denominator=2^0..2^30'}))
+        for d in (-1, 1):
+            if i >= 2:
+                out.append(('rel', 4, seq(sig=(4, 2 ** i + d)), {'extreme:denominator=2^k+-1'}))
+    for den in (0, -1, -2 ** 30, -2 ** 31, 2 ** 31 - 1, 2 ** 30 + 2 ** 29):
+        out.append(('rel', 4, seq(sig=(4, den)), {'extreme:denominator-illegal'}))
+    for num in (0, -1, -2 ** 31):
+        out.append(('rel', 4, seq(sig=(num, 4)), {'extreme:numerator'}))
+    edge_notes = ((0.0, 0.0), (0.0, 5e-324), (1.0, 1.0), (2.0, 2.5))
+    edge_pv = ((0, 1), (127, 127), (0, 127), (127, 1))
+    for spq in (1, 96):
+        for qpm in (10.0, 480.0, None):
+            out.append(('rel', spq, seq(qpm=qpm), {'extreme:spq=%d qpm=%s' % (spq, qpm)}))
+            out.append(('rel', spq, seq(times=edge_notes, qpm=qpm, pv=edge_pv), {'extreme:zero-length-notes,pitch/velocity-ends'}))
+            out.append(('rel', spq, seq(times=(), qpm=qpm), {'extreme:empty'}))
+    for sps in (1, 1000):
+        out.append(('abs', sps, seq(), {'extreme:sps=%d' % sps}))
+        out.append(('abs', sps, seq(times=edge_notes, pv=edge_pv), {'extreme:zero-length-notes,pitch/velocity-ends'}))
+        out.append(('abs', sps, seq(times=(), qpm=None), {'extreme:empty'}))
+    e = music_pb2.NoteSequence()
+    out.append(('rel', 4, e, {'extreme:empty'}))
+    out.append(('abs', 100, e, {'extreme:empty'}))
+    # exact ties (dyadic times) at integer steps per second with an odd factor, absolute and through a tempo
+    ties = ((0.5, 4.5), (0.75, 1.25), (1.5, 2.5), (3.5, 7.5))
+    for sps in (3, 75, 77, 91, 93, 99, 105, 117, 123, 150, 154, 167, 182, 999):
+        out.append(('abs', sps, seq(times=ties, qpm=None), {'extreme:exact-ties-odd-sps'}))
+    for spq, qpm in ((33, 180.0), (31, 180.0), (25, 180.0), (3, 60.0), (95, 60.0)):
+        out.append(('rel', spq, seq(times=ties, qpm=qpm), {'extreme:exact-ties-odd-sps'}))
+    return out
+
+
 def run(chk):
     from note_seq import sequences_lib as sl
     generate(chk)
@@ -354,31 +491,56 @@ def run(chk):
                 'rejection clause every equality decision gets its near-coincidence: later tempos 1-3 ulps and 1e-12..1e-6 relative '
                 'beside the first, first tempo beside the default 120, tempo / time-signature times -0.0, +-5e-324, 1e-300 .. 1e-9 '
                 'and one ulp beside each other, signatures differing in one component / ratio-equal, denominators around powers of '
-                'two up to 2^31-1, zero and negative; decimal and MIDI-derived tempos; '
+                'two up to 2^31-1, zero and negative; decimal and MIDI-derived tempos; always-run extremes: every denominator 2^0..2^30 '
+                'and 2^k+-1, steps_per_quarter 1/96, tempo 10/480, steps_per_second 1/1000, pitch 0/127, velocity 1/127, zero-length '
+                'notes, empty sequences, dyadic exact half-step ties at odd steps per second; quantize_to_step at an exact tie for '
+                'every integer steps_per_second 1..1000; steps_per_quarter_to_steps_per_second for every steps_per_quarter; '
                 'non-trivial = distinct input whose result is a value or a documented error')
     rng = chk.subrng('corr')
     reqs, impl, cases = [], [], []
     gen = [gen_case(rng) for _ in range(chk.n(3000, 60000))]
     corp = []
+    steps = []    # (t, sps, kind) for quantize_to_step on its own
     for name, o in corpus_cases(PID):
+        if o['mode'] == 'step':
+            steps.append((float(unrat(o['t'])), float(unrat(o['sps'])), 'corpus'))
+            continue
         corp.append((o['mode'], int(o['resolution']), nswire.decode(o['sequence']), {'corpus'}))
-    for mode, res, ns, hist in corp + gen:
+    for mode, res, ns, hist in extreme_cases() + corp + gen:
         line = '%s %d %s' % (mode, res, nswire.encode(ns))
         f = sl.quantize_note_sequence if mode == 'rel' else sl.quantize_note_sequence_absolute
         reqs.append(line)
         impl.append(nswire.result_line(f, ns, res))
         cases.append((mode, res, ns, hist))
-    # quantize_to_step directly, half-step boundaries +- ulps
+    # quantize_to_step directly: exact half-step ties at EVERY integer steps_per_second 1..1000 (int and float argument;
+    # the first tie and a later one), then half-step boundaries +- ulps at mixed resolutions
+    tie_rng = chk.subrng('ties')
+    for sps in range(1, 1001):
+        a = (sps & -sps).bit_length() - 1
+        for i in (0, tie_rng.randrange(1, 2000)):
+            steps.append((float(F(2 * i + 1, 2 ** (a + 1))), sps if i else float(sps), 'half-step:exact-tie:every-sps'))
     for i in range(chk.n(3000, 100000)):
-        sps = rng.choice([1.0, 2.0, 8.0, 100.0, 1000.0, rng.randrange(1, 97) * rng.uniform(10, 480) / 60.0])
+        sps = rng.choice([1.0, 2.0, 8.0, 100.0, 1000.0, float(rng.randrange(1, 1001)), rng.randrange(1, 97) * 15.0 * rng.randrange(1, 33) / 60.0,
+                          rng.randrange(1, 97) * rng.uniform(10, 480) / 60.0])
         t, kind = gen_time(rng, sps)
+        steps.append((t, sps, kind))
+    for t, sps, kind in steps:
         reqs.append('step %s %s' % (rat(t), rat(sps)))
-        impl.append('ok %d' % sl.quantize_to_step(t, sps))
-        cases.append(('step', kind))
+        impl.append(step_line(sl, t, sps))
+        cases.append(('step', kind, t, sps))
+    # steps_per_quarter_to_steps_per_second: every steps_per_quarter 1..96 at the ends of the tempo range and in between
+    n_sps = 0
+    for spq in range(1, 97):
+        for qpm in (10.0, 480.0, 120.0, 15.0 * rng.randrange(1, 33), rng.uniform(10, 480), 60e6 / rng.randrange(125000, 6000000)):
+            reqs.append('sps %d %s' % (spq, rat(qpm)))
+            impl.append(sps_line(sl, spq, qpm))
+            cases.append(('sps', 'spq=1/96' if spq in (1, 96) else 'spq'))
     model = chk.driver(EXE, reqs)
     for req, a, b, c in zip(reqs, impl, model, cases):
         if c[0] == 'step':
             chk.count('quantize_to_step', req, True, c[1])
+        elif c[0] == 'sps':
+            chk.count('steps_per_quarter_to_steps_per_second', req, True, c[1])
         else:
             chk.count('quantize_' + c[0], req[:2000], b != 'bad-op', sorted(c[3]) + ['result:' + ' '.join(a.split()[:2]) if a.startswith('err') else 'result:ok'])
         if a != b:
@@ -387,7 +549,15 @@ def run(chk):
     chk.sample({'request': reqs[-1], 'impl': impl[-1], 'model': model[-1]})
     # oracle on the implementation (independent of the model)
     for (c, req) in zip(cases, reqs):
+        if c[0] == 'sps':
+            continue
         if c[0] == 'step':
+            chk.count('oracle', None, hist='quantize_to_step')
+            r = oracle_step(sl, c[2], c[3])
+            if r:
+                chk.fail(r, {'mode': 'step', 't': rat(c[2]), 'sps': rat(c[3]), 'sps_is_int': isinstance(c[3], int)})
+                if len(chk.failures) > 20:
+                    break
             continue
         mode, res, ns, _ = c
         chk.count('oracle', None)
@@ -398,9 +568,31 @@ def run(chk):
                 break
 
 
+def step_line(sl, t, sps):
+    try:
+        return 'ok %d' % sl.quantize_to_step(t, sps)
+    except Exception as e:  # pylint: disable=broad-except
+        return 'err ' + type(e).__name__
+
+
+def sps_line(sl, spq, qpm):
+    try:
+        return 'ok ' + rat(sl.steps_per_quarter_to_steps_per_second(spq, qpm))
+    except Exception as e:  # pylint: disable=broad-except
+        return 'err ' + type(e).__name__
+
+
 def replay(chk, obj):
     from note_seq import sequences_lib as sl
     from note_seq.protobuf import music_pb2
+    if obj.get('mode') == 'step':
+        t, sps = float(unrat(obj['t'])), float(unrat(obj['sps']))
+        if obj.get('sps_is_int'):
+            sps = int(sps)
+        print('replay C01: quantize_to_step(%r, %r) = %s' % (t, sps, step_line(sl, t, sps)))
+        r = oracle_step(sl, t, sps)
+        print('PROPERTY FAILS: %s' % r if r else 'property holds on this input')
+        return 1 if r else 0
     print('replay C01:', obj.get('mode'), obj.get('resolution'))
     ns = nswire.decode(obj['sequence'])
     r = oracle_case(sl, obj['mode'], obj['resolution'], ns)
